@@ -3,6 +3,7 @@ package stanza
 import (
 	"encoding/xml"
 	"errors"
+	"strconv"
 	"sync"
 )
 
@@ -206,7 +207,15 @@ func (smf *SMFailed) UnmarshalXML(d *xml.Decoder, start xml.StartElement) error 
 	smf.XMLName = start.Name
 
 	// According to https://xmpp.org/rfcs/rfc3920.html#def we should have no attributes aside from the namespace
-	// which we don't use internally
+	// which we don't use internally. XEP-0198 adds the optional count of handled stanzas.
+	for _, attr := range start.Attr {
+		if attr.Name.Local == "h" {
+			if h, err := strconv.ParseUint(attr.Value, 10, 0); err == nil {
+				hh := uint(h)
+				smf.H = &hh
+			}
+		}
+	}
 
 	// decode inner elements
 	for {
